@@ -1,10 +1,15 @@
 #!/bin/bash
-# usage: tools_seed.sh <seed dir> <prop> — confirm a seeded change (demo fails with it, passes without) and run the check on it
-S="$1"; P="$2"
-[ -d /tmp/wt ] || git -C /repo worktree add -q --detach /tmp/wt HEAD
-git -C /tmp/wt checkout -q --detach "$(git -C /repo rev-parse HEAD)"; git -C /tmp/wt checkout -q -- .
-if ! git -C /tmp/wt apply "$S/patch.diff"; then echo "PATCH DOES NOT APPLY"; exit 3; fi
-cd /tmp; /venv/bin/python -W ignore "$S/demo.py" /tmp/wt > /tmp/demo_changed.out 2>&1; echo "demo on changed tree: exit $?"
-/venv/bin/python -W ignore "$S/demo.py" /repo > /tmp/demo_clean.out 2>&1; echo "demo on clean tree: exit $?"
-cd /verif; VERIF_REPO=/tmp/wt ./check "$P" 2>&1 | grep -v "^KNOWN-FINDING" | grep -E "VIOLATION|^\[$P\]|HARNESS|what:" | cut -c1-330 | head -8
-git -C /tmp/wt checkout -q -- .
+# usage: tools_seed.sh <seed dir> <prop> [seed...] — confirm a seeded change (demo fails with it, passes without) and run the
+# check on it in a scratch worktree of /repo HEAD (removed afterwards). Safe to run for several seeds in parallel.
+S="$(cd "$1" && pwd)"; P="$2"; shift 2; SEEDS="${*:-0}"
+N="$(basename "$S")"; WT="/tmp/wtseed-$N"
+git -C /repo worktree remove --force "$WT" 2>/dev/null
+git -C /repo worktree add -q --detach "$WT" HEAD || exit 3
+trap 'git -C /repo worktree remove --force "$WT" 2>/dev/null' EXIT
+if ! git -C "$WT" apply "$S/patch.diff"; then echo "[$N] PATCH DOES NOT APPLY"; exit 3; fi
+cd /tmp; /venv/bin/python -W ignore "$S/demo.py" "$WT" > "/tmp/demo_changed_$N.out" 2>&1; echo "[$N] demo on changed tree: exit $?"
+/venv/bin/python -W ignore "$S/demo.py" /repo > "/tmp/demo_clean_$N.out" 2>&1; echo "[$N] demo on clean tree: exit $?"
+cd /verif
+for sd in $SEEDS; do
+  VERIF_SEED=$sd VERIF_REPO="$WT" ./check "$P" 2>&1 | grep -v "^KNOWN-FINDING" | grep -E "VIOLATION|^\[$P\]|HARNESS|what:" | cut -c1-330 | head -6 | sed "s/^/[$N seed $sd] /"
+done
